@@ -125,7 +125,7 @@ only): the operand-stack base of the frame above — the stack does not get shor
 while the caller waits, in particular not shorter than the heights its handlers recorded. -/
 def InvL (code : Code) (A : List FnAnn) :
     Bool → List Frame → List Base → Nat → Int → List Handler → Nat → Prop
-  | _, [], [], _, _, _, _ => True
+  | _, [], [], _, _, hd, _ => hd = []
   | top, f :: rest, B :: bs, m, mp, hd, lo =>
     ∃ c fa a hd', lookupFn code A f.fn = some (c, fa) ∧ fa.pts[f.ip]? = some (some a) ∧
       B.b + a.h = m ∧ 0 ≤ B.mb ∧ mp = B.mb + a.off ∧ hd = hmap f.fn (rest.length + 1) B a.hs ++ hd' ∧
@@ -306,7 +306,7 @@ theorem succs_simple {sig : String → Option (Nat × Nat)} {fn : String} {c : F
 
 /-! ## Exception dispatch into a handler of the running activation -/
 
-theorem Ctx.dispatch {code : Code} {A : List FnAnn} {s : VMState} {f : Frame}
+theorem Ctx.dispatch_same {code : Code} {A : List FnAnn} {s : VMState} {f : Frame}
     {rest : List Frame} {c : FnCode} {fa : FnAnn} {a : Ann} {B : Base} {bs : List Base} {hd' : List Handler}
     (cx : Ctx code A s f rest c fa a B bs hd') {pops : Nat}
     (hh : handlerOK fa.pts a pops = true) (he : handlerEntryOK c a = true) (hne : a.hs ≠ [])
@@ -349,18 +349,139 @@ theorem Ctx.dispatch {code : Code} {A : List FnAnn} {s : VMState} {f : Frame}
       simp only [Bool.not_eq_true'] at he
       rw [he] at hu; cases hu
 
+/-! ## Exception dispatch into a handler of any activation -/
+
+/-- If the handler stack that the callers guarantee is non-empty, its top entry belongs to one of
+them; unwinding to that caller and entering its catch label re-establishes the invariant. -/
+theorem InvL.handler_target {code : Code} {A : List FnAnn} (hv : verify code A = true) :
+    ∀ {fs : List Frame} {bs : List Base} {m : Nat} {mp : Int} {hd : List Handler} {lo : Nat}
+      {hd0 : Handler} {hrest : List Handler},
+      InvL code A false fs bs m mp hd lo → hd = hd0 :: hrest →
+      ∃ pre fk restk prebs Bk bsk, fs = pre ++ fk :: restk ∧ bs = prebs ++ Bk :: bsk ∧ prebs.length = pre.length
+        ∧ hd0.callDepth = restk.length + 1 ∧ hd0.stackHeight ≤ lo ∧
+        ∀ s'' : VMState, s''.calls = hd0.target :: restk → s''.stack.length = hd0.stackHeight + 1 →
+          s''.mp = hd0.mp → s''.handlers = hd → InvB code A s'' (Bk :: bsk)
+  | [], [], _, _, hd, _, hd0, hrest, h, he => by
+    simp only [InvL] at h
+    rw [h] at he; cases he
+  | [], _ :: _, _, _, _, _, _, _, h, _ => by simp [InvL] at h
+  | _ :: _, [], _, _, _, _, _, _, h, _ => by simp [InvL] at h
+  | f :: rest, B :: bs, m, mp, hd, lo, hd0, hrest, h, he => by
+    simp only [InvL] at h
+    obtain ⟨c, fa, a, hd', hlk, hpt, hm, hmb, hmp, hhd, hlow, hbelow⟩ := h
+    obtain ⟨_, hlo1, hlo2⟩ := hlow trivial
+    cases hhs : a.hs with
+    | nil =>
+      rw [hhs] at hhd
+      simp only [hmap, List.map_nil, List.nil_append] at hhd
+      subst hhd
+      obtain ⟨pre, fk, restk, prebs, Bk, bsk, e1, e2, e3, e4, e5, e6⟩ := InvL.handler_target hv hbelow he
+      exact ⟨f :: pre, fk, restk, B :: prebs, Bk, bsk, by rw [e1]; rfl, by rw [e2]; rfl, by simp [e3], e4,
+        by omega, e6⟩
+    | cons lh tl =>
+      obtain ⟨l, H, o⟩ := lh
+      rw [hhs] at hhd
+      have hhd0 : hd0 = ⟨⟨f.fn, l⟩, rest.length + 1, B.b + H, B.mb + (o : Int)⟩ := by
+        rw [hhd] at he
+        simp only [hmap, List.map_cons, List.cons_append, List.cons.injEq] at he
+        exact he.1.symm
+      subst hhd0
+      refine ⟨[], f, rest, [], B, bs, rfl, rfl, rfl, rfl, by have := hlo2 _ _ hhs; simpa using this, ?_⟩
+      intro s'' hc hlen hmp' hhd'
+      obtain ⟨i, sp, pops, l', po⟩ := verify_point hv hlk hpt
+      have hh := po.handler
+      have hen := po.entry
+      simp only [handlerOK, hhs, Bool.and_eq_true, decide_eq_true_eq] at hh
+      simp only [handlerEntryOK, hhs] at hen
+      refine ⟨?_, siteOK_of (f := f) (ip' := l) hc (lookup_findCode _ _ _ _ _ hlk) ?_⟩
+      · rw [hc]
+        simp only [InvL]
+        refine ⟨c, fa, _, hd', hlk, hh.1, by simp only at hlen ⊢; omega, hmb, by simpa using hmp', ?_, by simp, hbelow⟩
+        rw [hhd', hhd, ← hhs]
+      · intro i' sp' n hi' hu _
+        rw [hi'] at hen
+        simp only [Bool.not_eq_true'] at hen
+        rw [hen] at hu; cases hu
+
+/-- How the list of activation bases changes in one step: one pushed, or some popped (none:
+unchanged; one: `ret`; several: unwinding to a handler). -/
+def Rel (bs0 bs' : List Base) : Prop := (∃ Bn, bs' = Bn :: bs0) ∨ (∃ pre, bs0 = pre ++ bs')
+
+theorem throwTo_cont_of {s' : VMState} {msg : String} {tsp : Span} {hd0 : Handler} {hrest : List Handler}
+    {c0 : Frame} {below : List Frame} (hh : s'.handlers = hd0 :: hrest)
+    (hd : s'.calls.drop (s'.calls.length - hd0.callDepth) = c0 :: below) :
+    ∃ s'', throwTo s' msg tsp = .cont s'' := by
+  unfold throwTo
+  simp only [hh, hd]
+  exact ⟨_, rfl⟩
+
+/-- What the exception dispatch does from a state that satisfies the invariant: either no handler
+is installed at all (the run ends with `UncaughtThrow`), or a handler starts — and then the
+invariant holds in the state in which it starts. -/
+def DispatchOK (code : Code) (A : List FnAnn) (bs0 : List Base) (s' : VMState) (msg : String) (tsp : Span) : Prop :=
+  (s'.handlers = [] ∨ ∃ s'', throwTo s' msg tsp = .cont s'')
+    ∧ ∀ s'', throwTo s' msg tsp = .cont s'' → ∃ bs', InvB code A s'' bs' ∧ Rel bs0 bs'
+
+/-- Exception dispatch from the running instruction: the handler is the innermost one of the
+innermost activation that has one. -/
+theorem Ctx.dispatch {code : Code} {A : List FnAnn} {s : VMState} {f : Frame}
+    {rest : List Frame} {c : FnCode} {fa : FnAnn} {a : Ann} {B : Base} {bs : List Base} {hd' : List Handler}
+    (cx : Ctx code A s f rest c fa a B bs hd') {pops : Nat}
+    (hh : handlerOK fa.pts a pops = true) (he : handlerEntryOK c a = true) (hpops : pops ≤ a.h)
+    {s' : VMState} (hk1 : s'.handlers = s.handlers)
+    (hcalls : s'.calls = s.calls ∨ s'.calls = advCalls s.calls)
+    (hlen : s.stack.length ≤ s'.stack.length + pops)
+    (msg : String) (tsp : Span) : DispatchOK code A (B :: bs) s' msg tsp := by
+  have htop : ∃ ip0, s'.calls = { f with ip := ip0 } :: rest := by
+    rcases hcalls with h | h
+    · exact ⟨f.ip, by rw [h, cx.calls]⟩
+    · exact ⟨f.ip + 1, by rw [h, cx.calls]; rfl⟩
+  obtain ⟨ip0, htop⟩ := htop
+  by_cases hne : a.hs = []
+  · have hhd1 : s'.handlers = hd' := by rw [hk1, cx.hd, hne]; simp [hmap]
+    cases hhd2 : hd' with
+    | nil => exact ⟨Or.inl (by rw [hhd1, hhd2]), fun s'' ht => by
+        obtain ⟨hd0, hrest, _, _, _, _, hhd, _⟩ := throwTo_cont ht
+        rw [hhd1, hhd2] at hhd; cases hhd⟩
+    | cons hd0 hrest =>
+      obtain ⟨pre, fk, restk, prebs, Bk, bsk, e1, e2, e3, e4, e5, e6⟩ := InvL.handler_target cx.hv cx.below hhd2
+      have hdrop : s'.calls.drop (s'.calls.length - hd0.callDepth) = fk :: restk := by
+        rw [htop, e1, e4]
+        have : (({ f with ip := ip0 } : Frame) :: (pre ++ fk :: restk)).length - (restk.length + 1) = pre.length + 1 := by
+          simp; omega
+        rw [this]
+        simp only [List.drop_succ_cons, List.drop_left]
+      refine ⟨Or.inr (throwTo_cont_of (by rw [hhd1, hhd2]) hdrop), ?_⟩
+      intro s'' ht
+      obtain ⟨hd0', hrest', c0, below, ob, st', hhd, hcs, rfl⟩ := throwTo_cont ht
+      rw [hhd1, hhd2] at hhd
+      simp only [List.cons.injEq] at hhd
+      obtain ⟨rfl, rfl⟩ := hhd
+      rw [hdrop] at hcs
+      simp only [List.cons.injEq] at hcs
+      obtain ⟨rfl, rfl⟩ := hcs
+      have hle := cx.hh
+      refine ⟨Bk :: bsk, e6 _ rfl ?_ rfl (by simp only [push1_handlers]; rw [hhd1, hhd2]),
+        Or.inr ⟨B :: prebs, by rw [e2]; rfl⟩⟩
+      simp only [push1_stack, List.length_cons, List.length_drop]
+      omega
+  · refine ⟨Or.inr ?_, fun s'' ht => ⟨B :: bs, cx.dispatch_same hh he hne hk1 hcalls hlen ht, Or.inr ⟨[], rfl⟩⟩⟩
+    cases hhs : a.hs with
+    | nil => exact absurd hhs hne
+    | cons lh tl =>
+      refine throwTo_cont_of (hd0 := ⟨⟨f.fn, lh.1⟩, rest.length + 1, B.b + lh.2.1, B.mb + (lh.2.2 : Int)⟩)
+        (hrest := hmap f.fn (rest.length + 1) B tl ++ hd')
+        (c0 := { f with ip := ip0 }) (below := rest) (by rw [hk1, cx.hd, hhs]; simp [hmap]) ?_
+      rw [htop]; simp
+
 /-! ## Soundness, instruction by instruction -/
 
-/-- How the list of activation bases changes in one step: unchanged, one pushed, one popped. -/
-def Rel (bs0 bs' : List Base) : Prop := bs' = bs0 ∨ (∃ Bn, bs' = Bn :: bs0) ∨ bs' = bs0.tail
-
 /-- What soundness says about one answer of `step`: a normal step re-establishes the invariant;
-a throw that is dispatched to a handler of the running activation (`hasHandler`) re-establishes
-it in the state in which the handler starts; a panic is none of the four excluded ones. -/
-def Sound (code : Code) (A : List FnAnn) (bs0 : List Base) (hasHandler : Prop) : StepRes → Prop :=
+a throw that is dispatched to a handler re-establishes it in the state in which the handler
+starts; a panic is none of the four excluded ones. -/
+def Sound (code : Code) (A : List FnAnn) (bs0 : List Base) : StepRes → Prop :=
   Sat3 (fun s' => ∃ bs', InvB code A s' bs' ∧ Rel bs0 bs')
-    (fun x s' => ∀ msg tsp, x = .throw msg tsp → hasHandler →
-      ∀ s'', throwTo s' msg tsp = .cont s'' → InvB code A s'' bs0)
+    (fun x s' => ∀ msg tsp, x = .throw msg tsp → DispatchOK code A bs0 s' msg tsp)
     (fun why => why ≠ "stack underflow" ∧ NoBad why)
 
 theorem _root_.HmsProofs.Lemmas.VMStep.Sat3.mono' {N N' : VMState → Prop} {I I' : Interrupt → VMState → Prop}
@@ -382,11 +503,11 @@ theorem Ctx.adv (cx : Ctx code A s f rest c fa a B bs hd') :
   rw [cx.calls]; rfl
 
 theorem same {s' : VMState} (h : InvB code A s' (B :: bs)) : ∃ bs', InvB code A s' bs' ∧ Rel (B :: bs) bs' :=
-  ⟨_, h, Or.inl rfl⟩
+  ⟨_, h, Or.inr ⟨[], rfl⟩⟩
 
 theorem simple_sound (cx : Ctx code A s f rest c fa a B bs hd')
     (po : PointOK code A f.fn c fa f.ip a i sp pops l) (lim : Limits) {p q : Nat}
-    (hse : simpleEff i = some (p, q)) : Sound code A (B :: bs) (a.hs ≠ []) (step code lim s i sp) := by
+    (hse : simpleEff i = some (p, q)) : Sound code A (B :: bs) (step code lim s i sp) := by
   have hsucc := po.succ
   rw [succs_simple hse] at hsucc
   split at hsucc
@@ -409,8 +530,8 @@ theorem simple_sound (cx : Ctx code A s f rest c fa a B bs hd')
       simp only [StepRes.next.injEq] at hst
       subst hst
       exact ⟨none, s.stack, by simp [Int.toNat_of_nonneg hv0]⟩
-    · rintro x s' _ ⟨h1, h2, h3, h4, h5, h6, h7⟩ msg tsp _ hne s'' ht
-      exact cx.dispatch po.handler po.entry hne h5 (Or.inl h4) h2 ht
+    · rintro x s' _ ⟨h1, h2, h3, h4, h5, h6, h7⟩ msg tsp _
+      exact cx.dispatch po.handler po.entry hp h5 (Or.inl h4) h2 msg tsp
     · rintro why _ _ ⟨h1, h2⟩
       exact ⟨fun e => by have := h1 e; omega, h2⟩
   · cases hsucc
@@ -434,7 +555,7 @@ theorem site_tg (cx : Ctx code A s f rest c fa a B bs hd') (hi : c[f.ip]? = some
 
 theorem jump_sound (cx : Ctx code A s f rest c fa a B bs hd')
     (po : PointOK code A f.fn c fa f.ip a (.jump t) sp pops l) (lim : Limits) :
-    Sound code A (B :: bs) (a.hs ≠ []) (step code lim s (.jump t) sp) := by
+    Sound code A (B :: bs) (step code lim s (.jump t) sp) := by
   have hsucc := po.succ
   simp only [succs, Option.some.injEq, Prod.mk.injEq] at hsucc
   obtain ⟨rfl, rfl⟩ := hsucc
@@ -451,7 +572,7 @@ theorem nonempty_of_h (cx : Ctx code A s f rest c fa a B bs hd') (h : 1 ≤ a.h)
 
 theorem jumpIfFalse_sound (cx : Ctx code A s f rest c fa a B bs hd')
     (po : PointOK code A f.fn c fa f.ip a (.jumpIfFalse t) sp pops l) (lim : Limits) :
-    Sound code A (B :: bs) (a.hs ≠ []) (step code lim s (.jumpIfFalse t) sp) := by
+    Sound code A (B :: bs) (step code lim s (.jumpIfFalse t) sp) := by
   have hsucc := po.succ
   simp only [succs] at hsucc
   split at hsucc
@@ -481,7 +602,7 @@ theorem jumpIfFalse_sound (cx : Ctx code A s f rest c fa a B bs hd')
 theorem getVar_sound (cx : Ctx code A s f rest c fa a B bs hd') {k : Nat}
     (po : PointOK code A f.fn c fa f.ip a (.getVar k) sp pops l) (lim : Limits)
     (hlim : s.mp < (lim.memory : Int)) :
-    Sound code A (B :: bs) (a.hs ≠ []) (step code lim s (.getVar k) sp) := by
+    Sound code A (B :: bs) (step code lim s (.getVar k) sp) := by
   have hsucc := po.succ
   simp only [succs] at hsucc
   split at hsucc
@@ -503,7 +624,7 @@ theorem getVar_sound (cx : Ctx code A s f rest c fa a B bs hd') {k : Nat}
 theorem setVar_sound (cx : Ctx code A s f rest c fa a B bs hd') {k : Nat}
     (po : PointOK code A f.fn c fa f.ip a (.setVar k) sp pops l) (lim : Limits)
     (hlim : s.mp < (lim.memory : Int)) :
-    Sound code A (B :: bs) (a.hs ≠ []) (step code lim s (.setVar k) sp) := by
+    Sound code A (B :: bs) (step code lim s (.setVar k) sp) := by
   have hsucc := po.succ
   simp only [succs] at hsucc
   split at hsucc
@@ -528,7 +649,7 @@ theorem setVar_sound (cx : Ctx code A s f rest c fa a B bs hd') {k : Nat}
 
 theorem setTry_sound (cx : Ctx code A s f rest c fa a B bs hd') {fn : String}
     (po : PointOK code A f.fn c fa f.ip a (.setTry fn t) sp pops l) (lim : Limits) :
-    Sound code A (B :: bs) (a.hs ≠ []) (step code lim s (.setTry fn t) sp) := by
+    Sound code A (B :: bs) (step code lim s (.setTry fn t) sp) := by
   have hsucc := po.succ
   simp only [succs] at hsucc
   split at hsucc
@@ -544,7 +665,7 @@ theorem setTry_sound (cx : Ctx code A s f rest c fa a B bs hd') {fn : String}
 
 theorem popTry_sound (cx : Ctx code A s f rest c fa a B bs hd')
     (po : PointOK code A f.fn c fa f.ip a .popTry sp pops l) (lim : Limits) :
-    Sound code A (B :: bs) (a.hs ≠ []) (step code lim s .popTry sp) := by
+    Sound code A (B :: bs) (step code lim s .popTry sp) := by
   have hsucc := po.succ
   simp only [succs] at hsucc
   split at hsucc
@@ -562,7 +683,7 @@ theorem popTry_sound (cx : Ctx code A s f rest c fa a B bs hd')
 
 theorem addMp_sound (cx : Ctx code A s f rest c fa a B bs hd') {n : Int}
     (po : PointOK code A f.fn c fa f.ip a (.addMp n) sp pops l) (lim : Limits) :
-    Sound code A (B :: bs) (a.hs ≠ []) (step code lim s (.addMp n) sp) := by
+    Sound code A (B :: bs) (step code lim s (.addMp n) sp) := by
   have hsucc := po.succ
   simp only [succs] at hsucc
   split at hsucc
@@ -582,7 +703,7 @@ theorem addMp_sound (cx : Ctx code A s f rest c fa a B bs hd') {n : Int}
 
 theorem throw_sound (cx : Ctx code A s f rest c fa a B bs hd')
     (po : PointOK code A f.fn c fa f.ip a .throw sp pops l) (lim : Limits) :
-    Sound code A (B :: bs) (a.hs ≠ []) (step code lim s .throw sp) := by
+    Sound code A (B :: bs) (step code lim s .throw sp) := by
   have hsucc := po.succ
   simp only [succs] at hsucc
   split at hsucc
@@ -592,14 +713,14 @@ theorem throw_sound (cx : Ctx code A s f rest c fa a B bs hd')
     obtain ⟨x, tl, hs⟩ := nonempty_of_h cx hp
     refine (step_throw code lim s sp x tl hs).mono' ?_ ?_ ?_
     · intro _ _ h; exact h.elim
-    · rintro x' s' _ ⟨h1, ⟨h2, h3, _⟩, h5⟩ msg tsp _ hne s'' ht
-      exact cx.dispatch po.handler po.entry hne h2 h5.symm (by rw [h1, hs]; simp) ht
+    · rintro x' s' _ ⟨h1, ⟨h2, h3, _⟩, h5⟩ msg tsp _
+      exact cx.dispatch po.handler po.entry hp h2 h5.symm (by rw [h1, hs]; simp) msg tsp
     · intro _ _ _ h; exact h
   · cases hsucc
 
 theorem ret_sound (cx : Ctx code A s f rest c fa a B bs hd')
     (po : PointOK code A f.fn c fa f.ip a .ret sp pops l) (lim : Limits) :
-    Sound code A (B :: bs) (a.hs ≠ []) (step code lim s .ret sp) := by
+    Sound code A (B :: bs) (step code lim s .ret sp) := by
   have hsucc := po.succ
   simp only [succs] at hsucc
   split at hsucc
@@ -612,7 +733,7 @@ theorem ret_sound (cx : Ctx code A s f rest c fa a B bs hd')
     have hb : InvL code A false rest bs s.stack.length s.mp s.handlers B.b := by
       rw [hhd, hmp, ← cx.hh, h1]
       exact cx.below
-    refine ⟨bs, ⟨by rw [hcalls]; exact InvL_top hb, ?_⟩, Or.inr (Or.inr rfl)⟩
+    refine ⟨bs, ⟨by rw [hcalls]; exact InvL_top hb, ?_⟩, Or.inr ⟨[B], rfl⟩⟩
     -- the caller resumes right after a call instruction, which is not a `copyPush`
     intro g rest' cg i' sp' n hc' hf' hi' hu hn
     rw [hcalls] at hc'
@@ -653,7 +774,7 @@ theorem Ctx.call (cx : Ctx code A s f rest c fa a B bs hd') (hi : c[f.ip]? = som
   have hle := cx.hh
   have hmb := cx.mb
   have hmpe := cx.mp
-  refine ⟨⟨B.b + a.h - d - fg.params, s.mp⟩ :: B :: bs, ⟨?_, ?_⟩, Or.inr (Or.inl ⟨_, rfl⟩)⟩
+  refine ⟨⟨B.b + a.h - d - fg.params, s.mp⟩ :: B :: bs, ⟨?_, ?_⟩, Or.inl ⟨_, rfl⟩⟩
   · rw [hc]
     simp only [InvL]
     refine ⟨cg, fg, _, s.handlers, hg, hentry, by (try dsimp only); omega, by (try dsimp only); omega,
@@ -681,7 +802,7 @@ theorem sigOf_some {g : String} {p q : Nat} (h : sigOf code A g = some (p, q)) :
 
 theorem callImm_sound (cx : Ctx code A s f rest c fa a B bs hd') {g : String}
     (po : PointOK code A f.fn c fa f.ip a (.callImm g) sp pops l) (lim : Limits) :
-    Sound code A (B :: bs) (a.hs ≠ []) (step code lim s (.callImm g) sp) := by
+    Sound code A (B :: bs) (step code lim s (.callImm g) sp) := by
   have hsucc := po.succ
   simp only [succs] at hsucc
   split at hsucc
@@ -713,7 +834,7 @@ theorem site_stack (cx : Ctx code A s f rest c fa a B bs hd') (hsite : SiteOK co
 
 theorem hostCall_sound (cx : Ctx code A s f rest c fa a B bs hd') (hsite : SiteOK code s) {name : String}
     (po : PointOK code A f.fn c fa f.ip a (.hostCall name) sp pops l) (lim : Limits) :
-    Sound code A (B :: bs) (a.hs ≠ []) (step code lim s (.hostCall name) sp) := by
+    Sound code A (B :: bs) (step code lim s (.hostCall name) sp) := by
   have hsucc := po.succ
   simp only [succs] at hsucc
   split at hsucc
@@ -731,9 +852,9 @@ theorem hostCall_sound (cx : Ctx code A s f rest c fa a B bs hd') (hsite : SiteO
         rw [hargc] at h2
         exact same (cx.intra (by rw [h3, cx.adv]) hf1 (by simp only; omega) (by rw [h5, cx.mp]) (by rw [h4, cx.hd])
           (site_ft po.instr (by intro v; simp)))
-      · rintro x s' _ ⟨h1, h2, h3, h4, h5⟩ msg tsp _ hne s'' ht
+      · rintro x s' _ ⟨h1, h2, h3, h4, h5⟩ msg tsp _
         rw [hargc] at h2
-        exact cx.dispatch po.handler po.entry hne h4 (Or.inl h3) (by rw [hs]; simp only [List.length_cons]; omega) ht
+        exact cx.dispatch po.handler po.entry hp.1 h4 (Or.inl h3) (by rw [hs]; simp only [List.length_cons]; omega) msg tsp
       · rintro why _ _ ⟨h1, h2⟩
         rw [hargc] at h1
         exact ⟨fun e => by have := h1 e; omega, h2⟩
@@ -741,7 +862,7 @@ theorem hostCall_sound (cx : Ctx code A s f rest c fa a B bs hd') (hsite : SiteO
   · cases hsucc
 
 theorem spawn_sound {g : String} (lim : Limits) :
-    Sound code A (B :: bs) (a.hs ≠ []) (step code lim s (.spawn g) sp) := by
+    Sound code A (B :: bs) (step code lim s (.spawn g) sp) := by
   rw [step_spawn]
   simp [Sound, Sat3, NoBad]
 
@@ -759,7 +880,7 @@ def DynOK (code : Code) (A : List FnAnn) (lim : Limits) (s : VMState) : Prop :=
 
 theorem callVal_sound (cx : Ctx code A s f rest c fa a B bs hd') (hsite : SiteOK code s)
     (po : PointOK code A f.fn c fa f.ip a .callVal sp pops l) (lim : Limits) (hdyn : DynOK code A lim s) :
-    Sound code A (B :: bs) (a.hs ≠ []) (step code lim s .callVal sp) := by
+    Sound code A (B :: bs) (step code lim s .callVal sp) := by
   have hsucc := po.succ
   simp only [succs] at hsucc
   split at hsucc
@@ -797,10 +918,10 @@ theorem callVal_sound (cx : Ctx code A s f rest c fa a B bs hd') (hsite : SiteOK
             have := hdbi hbi s' hst
             exact same (cx.intra (by rw [h4, cx.adv]) hf1 (by simp only; omega) (by rw [h6.1, cx.mp])
               (by rw [h5, cx.hd]) (site_ft po.instr (by intro v; simp)))
-          · rintro x s' _ ⟨h1, h2, h3, h4, h5⟩ msg tsp _ hne s'' ht
+          · rintro x s' _ ⟨h1, h2, h3, h4, h5⟩ msg tsp _
             rw [hargc] at h2
-            exact cx.dispatch po.handler po.entry hne h4 (Or.inl h3)
-              (by rw [hs]; simp only [List.length_cons]; omega) ht
+            exact cx.dispatch po.handler po.entry hp.1 h4 (Or.inl h3)
+              (by rw [hs]; simp only [List.length_cons]; omega) msg tsp
           · rintro why _ _ ⟨h1, h2⟩
             rw [hargc] at h1
             exact ⟨fun e => by have := h1 e; omega, h2⟩
@@ -824,7 +945,7 @@ theorem step_sound (hv : verify code A = true) {bs0 : List Base} (hinv : InvB co
     (hc : s.calls = f :: rest) (hf : findCode code f.fn = some c) (hi : c[f.ip]? = some (i, sp))
     (lim : Limits) (hlim : s.mp < (lim.memory : Int)) (hdyn : DynOK code A lim s) :
     ∃ fa a, lookupFn code A f.fn = some (c, fa) ∧ fa.pts[f.ip]? = some (some a) ∧
-      Sound code A bs0 (a.hs ≠ []) (step code lim s i sp) := by
+      Sound code A bs0 (step code lim s i sp) := by
   obtain ⟨c', fa, a, B, bs, hd', rfl, cx⟩ := hinv.unpack hv hc
   have hc' := lookup_findCode _ _ _ _ _ cx.look
   rw [hf] at hc'; cases hc'
